@@ -8,7 +8,9 @@ LEVEL_TEXT = ("RtpPack.tla states the contract of the packets the server generat
               "x sequences of payload-size classes around M; every run is executed on a real Stream/SubStream through "
               "subStreamFormat.writeUnitInner / newRTPEncoder, the packets are depacketized with newRTPDecoder and TLC judges "
               "the observed packets, per unit and over everything the format emits while re-packetization is active (RTP publishers: "
-              "frames arriving in several oversized or small fragments, packets that yield no payload)")
+              "frames arriving in several oversized or small fragments, packets that yield no payload) and over the whole life of a "
+              "format on a persistent (always-available) Stream that goes through offline filler / publisher / offline / RTP "
+              "publisher sub-streams (one offset and one sequence-number run across the phase switches)")
 LEVEL_NOTE = ("contract of the packets only (packetization bytes are gortsplib's); 12 codecs (not MJPEG, MPEG-1 audio/video, "
               "MPEG-4 audio LATM, FLAC); for sample-based audio and audio units with several frames the timestamp formula covers "
               "the first packet of the unit only (later packets must advance by RTP's rules); AC-3 sizes are the table sizes "
@@ -27,11 +29,32 @@ def run(ctx):
         raise vf.Infra("generator produced only %d runs" % len(cases))
     ctx.set("exhaustive", True)
     cf = vf.write_ndjson(ctx.path("cases.ndjson"), cases)
+    # persistent streams: one always-available Stream through offline / publisher phases
+    pcases = []
+    for c in r.tagged("PCASE"):
+        if not ctx.thorough and c["m"] == 1440:
+            continue
+        c["id"] = len(cases) + len(pcases)
+        pcases.append(c)
+    if len(pcases) < 16:
+        raise vf.Infra("generator produced only %d persistent-stream runs" % len(pcases))
+    pcf = vf.write_ndjson(ctx.path("pcases.ndjson"), pcases)
     of = d + "/C23_trace.ndjson"
-    vf.gotest_ok(ctx, "./internal/stream/", "^TestVerif_C23_Runs$", cases=cf, out=of, timeout=1200)
-    recs = vf.read_ndjson(of)
-    if len(recs) != len(cases):
-        raise vf.Infra("harness executed %d of %d runs" % (len(recs), len(cases)))
+    o1, o2 = ctx.path("runs.ndjson"), ctx.path("persist.ndjson")
+    vf.gotest_ok(ctx, "./internal/stream/", "^TestVerif_C23_(Runs|Persist)$", cases=cf, out=o1, timeout=1200,
+                 params={"PCASES": pcf, "POUT": o2})
+    recs = vf.read_ndjson(o1)
+    precs = vf.read_ndjson(o2)
+    if len(recs) != len(cases) or len(precs) != len(pcases):
+        raise vf.Infra("harness executed %d of %d runs, %d of %d persistent-stream runs"
+                       % (len(recs), len(cases), len(precs), len(pcases)))
+    for x in precs:
+        phases_seen = {e["unit"] for e in x["emits"] if e["pkts"]}
+        if len(phases_seen) < len(x["phases"]):
+            raise vf.Infra("persistent-stream run %d (%s): packets observed only in phases %s of %s"
+                           % (x["id"], x["codec"], sorted(phases_seen), x["phases"]))
+    recs = recs + precs
+    vf.write_ndjson(of, recs)
     gen = sum(1 for x in recs for u in x["units"] if u["generated"])
     errs = [(x, u) for x in recs for u in x["units"] if u["err"]]
     if gen < 1000:
@@ -41,8 +64,9 @@ def run(ctx):
     for bad in tv.tagged("BAD"):
         rec = recs[bad["l"] - 1]
         k = bad["unit"]
-        u = rec["units"][k - 1] if k >= 1 else None
-        cls = u["class"] if u else "run"
+        persist = rec["branch"] == "persist"
+        u = rec["units"][k - 1] if (k >= 1 and not persist) else None
+        cls = u["class"] if u else ("phase %d: %s" % (k, rec["phases"][k - 1]) if (persist and k >= 1) else "run")
         key = (bad["monitor"], rec["codec"], rec["branch"], rec["m"], cls)
         if key in seen:
             continue
@@ -55,12 +79,16 @@ def run(ctx):
                           % (bad["monitor"], rec["codec"], rec["branch"], rec["m"], u["class"], u["sizes"][:5], u["pts"],
                              [(p["len"], p["seq"], p["tsoff"]) for p in u["pkts"]][:6], u["psig"][:4], u["dsig"][:4]))
         else:
-            classes = [(x["class"], x.get("inPkts", 0)) for x in rec["units"]]
-            em = [(e["unit"], "nil payload" if e["nilp"] else "payload", [(p["len"], p["seq"]) for p in e["pkts"]][:5])
+            classes = rec["phases"] if persist else [(x["class"], x.get("inPkts", 0)) for x in rec["units"]]
+            if persist:     # show the emissions around the first one that breaks the formula
+                act = [e for e in rec["emits"] if e["active"]]
+                first = next((i for i, e in enumerate(act) if e["unit"] == k), 0)
+                rec = dict(rec, emits=act[max(0, first - 3):first + 6])
+            em = [(e["unit"], "nil payload" if e["nilp"] else "payload", [(p["len"], p["seq"], p["tsoff"]) for p in e["pkts"]][:4])
                   for e in rec["emits"] if e["active"]]
             ctx.violation(record,
                           "%s fails over everything emitted while re-packetization is active for %s (%s, maximum payload %d): "
-                          "frames (class, incoming packets) %s; emissions (frame, payload, packets as (length, sequence number)) "
+                          "frames (class, incoming packets) / phases %s; emissions (frame or phase, payload, packets as (length, sequence number, timestamp - unit timestamp)) "
                           "%s; delivered elements %s, depacketized as one stream %s, depacketizer errors %s"
                           % (bad["monitor"], rec["codec"], rec["branch"], rec["m"], classes, em[:12],
                              [x["len"] for x in rec["pel"]][:12], [x["len"] for x in rec["del"]][:12], rec["derrs2"][:3]))
@@ -88,6 +116,8 @@ def run(ctx):
     ctx.set("incoming_frames_in_several_packets", frag)
     ctx.set("calls_without_payload_while_repacketizing", silent)
     ctx.set("emissions_judged", sum(1 for x in recs for e in x["emits"] if e["active"]))
+    ctx.set("persistent_stream_runs", len(precs))
+    ctx.set("persistent_stream_emissions", sum(len(x["emits"]) for x in precs))
     mid = recs[len(recs) // 2]
     ctx.sample({"run": {k: mid[k] for k in ("codec", "branch", "m")},
                 "unit": {k: mid["units"][0][k] for k in ("class", "sizes", "generated", "pkts")}})
